@@ -368,6 +368,17 @@ let eval (op : string) (a : string list) : string =
      applied it and whether the complete answer was delivered, so the FULL set of history
      predicates applies (a cut answer = a lost acknowledgement) *)
   | "wcut", ws -> op_e2e ws
+  | "trk", [bs; t; margin; reqs] ->
+    let bad = List.filter (fun r ->
+        not (span_ok (z_of_hex t) (z_of_hex margin) (nat_of_hex bs) (List.map z_of_hex (split ',' r))))
+        (String.split_on_char '/' reqs) in
+    if bad = [] then "ok" else "FAIL:span"
+  | "nwt", [sasl; tls; cid; dnil; idle; ttl] ->
+    let d = if dnil = "1" then None else Some { d_sasl = (sasl = "1"); d_tls = (tls = "1"); d_clientID = (cid = "1") } in
+    let t = transport_of_writer_config d (z_of_hex idle) (z_of_hex ttl) in
+    let b x = if x then "1" else "0" in
+    Printf.sprintf "%s:%s:%s:%s:%s:%s" (b t.t_sasl) (b t.t_tls) (if t.t_clientID then "cid" else ".")
+      (hex_of_z t.t_idleMs) (hex_of_z t.t_ttlMs) (b t.t_dial)
   | "rtb", [e] -> if retriable_spec (n_of_hex e) then "1" else "0"
   | "nwc", [ma; bs; bb; bt; rt; wt; acks; asy; balnil; codec; topic; lg; elg; nb] ->
     let c = { wc_maxAttempts = z_of_hex ma; wc_batchSize = z_of_hex bs; wc_batchBytes = z_of_hex bb;
